@@ -70,6 +70,8 @@ func tryEvalCheck(r *rep.Run, kleene bool) {
 		o := drive.FromBits(b)
 		o.Undef = 3
 		opts = append(opts, o)
+		o.Undef = 4 // two names registered under one key (availability and values are per NAME)
+		opts = append(opts, o)
 	}
 
 	done := r.ParallelFor(len(progs), func(w, i int) {
@@ -225,13 +227,26 @@ func tryEvalCheck(r *rep.Run, kleene bool) {
 								supplied[p.Vars[v].Name] = vals[v]
 							}
 						}
-						var lv eval.Value
-						var lerr error
-						pn, site := drive.Fence(func() { lv, lerr = c.e.TryEval(eval.NewCtxFromVars(c.cfg, supplied)) })
-						ex++
-						lib := drive.Out{Val: lv, Err: lerr, Panic: pn, Site: site}
-						if !drive.SameOutcome(lib, got) || (got.Err == nil && isDNE(got.Val) != isDNE(lib.Val)) {
-							r.Violate("library-context", p.Src+c.o.String(), sprintf("TryEval with the context NewCtxFromVars builds from the available values gives %s, with a fetcher reporting the same availability it gives %s", lib, got), d(map[string]interface{}{"supplied": fmt.Sprint(supplied)}))
+						for variant := 0; variant < 2; variant++ {
+							if variant == 1 {
+								// the unavailable variables supplied as DNE-valued entries
+								for v := 0; v < k; v++ {
+									if !avail[v] {
+										supplied[p.Vars[v].Name] = eval.DNE
+									}
+								}
+								if mask == 1<<k-1 {
+									break
+								}
+							}
+							var lv eval.Value
+							var lerr error
+							pn, site := drive.Fence(func() { lv, lerr = c.e.TryEval(eval.NewCtxFromVars(c.cfg, supplied)) })
+							ex++
+							lib := drive.Out{Val: lv, Err: lerr, Panic: pn, Site: site}
+							if !drive.SameOutcome(lib, got) || (got.Err == nil && isDNE(got.Val) != isDNE(lib.Val)) {
+								r.Violate("library-context", p.Src+c.o.String()+fmt.Sprint(variant), sprintf("TryEval with the context NewCtxFromVars builds from the available values%s gives %s, with a fetcher reporting the same availability it gives %s", []string{"", " (unavailable ones supplied as DNE-valued entries)"}[variant], lib, got), d(map[string]interface{}{"supplied": fmt.Sprint(supplied)}))
+							}
 						}
 					}
 					if got.Panic != nil {
